@@ -12,7 +12,7 @@ import (
 
 func init() {
 	register(&Rule{
-		ID: "CB", Props: []string{"C16"}, Min: 12,
+		ID: "CB", Props: []string{"C16"}, Min: 9,
 		Doc: `every criterion builder is combined: each function 'func() obiseq.SequencePredicate' of pkg/obitools/obigrep (one per selection option family) is reachable by
 static calls from CLISequenceSelectionPredicate, its result is combined with And (initial value or argument of And, assigned back to the accumulated predicate), and the
 inversion (-v) is applied after the last And and before the return.`,
